@@ -5,17 +5,17 @@ Import ListNotations.
 Local Open Scope string_scope.
 Local Open Scope list_scope.
 
-(* symbols is total (a Gallina function) and exports every declared variable exactly once, in order, under its external
-   name, with its type code, array size and default values; supported hypotheses = declared set in enumeration order *)
+(* symbols is total (a Gallina function) and exports every variable the DSL elaboration declares exactly once, in order, under its
+   external name, with its type code, array size and default values; supported hypotheses = declared set in enumeration order *)
 Theorem C45_symbols_total_names_types_sizes_defaults : forall vr g d, let T := symbols vr g d in
   match dkind d with
   | MaterialProperty =>
       t_kind T = 0%Z /\ ext_name_spec (doutput d) (t_output T) /\ Forall2 faithful_var_names (dinputs d) (t_args T) /\
       Forall2 faithful_var_names (dparams d) (t_params T)
   | Behaviour =>
-      t_kind T = 1%Z /\ hyps_spec (dhyps d) (t_hyps T) /\ Forall2 faithful_var_names (dmps d) (t_mps T) /\
-      Forall2 faithful_var_names (dsvs d ++ dasvs d) (t_isvs T) /\ Forall2 faithful_var_names (desvs d) (t_esvs T) /\
-      Forall2 faithful_var_names (dparams d ++ builtin_parameters) (t_params T)
+      t_kind T = 1%Z /\ hyps_spec (dhyps d) (t_hyps T) /\ Forall2 faithful_var_names (dsl_mps (ddsl d) (dmps d)) (t_mps T) /\
+      Forall2 faithful_var_names (dsl_svs (ddsl d) (dsvs d) ++ dasvs d) (t_isvs T) /\ Forall2 faithful_var_names (desvs d) (t_esvs T) /\
+      Forall2 faithful_var_names (dsl_params (ddsl d) (dparams d)) (t_params T)
   end /\ t_unit T = match dunit d with Some s => s | None => "" end.
 Proof. exact names_any. Qed.
 Print Assumptions C45_symbols_total_names_types_sizes_defaults.
@@ -29,25 +29,23 @@ Print Assumptions C45_external_name_rule.
 Theorem C45_completion_rule : forall g u v r, phys_spec g u v r <-> r = complete g u v.
 Proof. intros g u v r; split; [apply phys_spec_complete | intros ->; apply complete_ok]. Qed.
 Print Assumptions C45_completion_rule.
-
 Theorem C45_two_sided_glossary_entry_gives_both_bounds : forall g s k e l u v,
   vphys v = None -> vgloss v = Some k -> first_entry g k s e -> glow e = Some l -> gup e = Some u ->
   complete g (Some s) v = Some (Both l u).
 Proof. exact complete_two_sided. Qed.
 Print Assumptions C45_two_sided_glossary_entry_gives_both_bounds.
-
 Theorem C45_declared_physical_bounds_win : forall g u v b, vphys v = Some b -> complete g u v = Some b.
 Proof. exact complete_declared. Qed.
 Print Assumptions C45_declared_physical_bounds_win.
 
-(* non-array variables of the containers no finding touches: bounds and physical bounds (inherited included) round-trip *)
+(* non-array variables of the containers the first three findings do not touch: bounds and physical bounds (inherited included) round-trip *)
 Theorem C45_bounds_roundtrip_scalars : forall vr g d, let T := symbols vr g d in
   match dkind d with
   | MaterialProperty => Forall2 (scalar_faithful g (dunit d)) (dparams d) (t_params T)
   | Behaviour =>
-      Forall2 (scalar_faithful g (dunit d)) (dmps d) (t_mps T) /\
+      Forall2 (scalar_faithful g (dunit d)) (dsl_mps (ddsl d) (dmps d)) (t_mps T) /\
       Forall2 (scalar_faithful g (dunit d)) (desvs d) (t_esvs T) /\
-      Forall2 (scalar_faithful g (dunit d)) (dparams d ++ builtin_parameters) (t_params T) /\
+      Forall2 (scalar_faithful g (dunit d)) (dsl_params (ddsl d) (dparams d)) (t_params T) /\
       (exists m, t_temperature T = Some m /\ faithful_var g (dunit d) temperature_var m)
   end.
 Proof. exact scalars_any. Qed.
@@ -55,16 +53,15 @@ Print Assumptions C45_bounds_roundtrip_scalars.
 
 (* array variables export their size: as many names / type codes as the sum of the array sizes *)
 Theorem C45_array_sizes_exported : forall vr g d, dkind d = Behaviour -> let T := symbols vr g d in
-  length (expanded_names (t_mps T)) = sum_sizes (dmps d) /\
-  length (expanded_names (t_isvs T)) = sum_sizes (dsvs d ++ dasvs d) /\
-  length (expanded_types (t_isvs T)) = sum_sizes (dsvs d ++ dasvs d) /\
+  length (expanded_names (t_mps T)) = sum_sizes (dsl_mps (ddsl d) (dmps d)) /\
+  length (expanded_names (t_isvs T)) = sum_sizes (dsl_svs (ddsl d) (dsvs d) ++ dasvs d) /\
+  length (expanded_types (t_isvs T)) = sum_sizes (dsl_svs (ddsl d) (dsvs d) ++ dasvs d) /\
   length (expanded_names (t_esvs T)) = sum_sizes (desvs d) /\
   length (expanded_types (t_esvs T)) = sum_sizes (desvs d) /\
-  length (expanded_names (t_params T)) = sum_sizes (dparams d ++ builtin_parameters) /\
-  length (expanded_types (t_params T)) = sum_sizes (dparams d ++ builtin_parameters).
+  length (expanded_names (t_params T)) = sum_sizes (dsl_params (ddsl d) (dparams d)) /\
+  length (expanded_types (t_params T)) = sum_sizes (dsl_params (ddsl d) (dparams d)).
 Proof. exact sizes_any. Qed.
 Print Assumptions C45_array_sizes_exported.
-
 Theorem C45_repairs_change_only_bounds : forall vr g d,
   map (fun m => (m_ext m, m_code m, m_size m, m_def m)) (t_isvs (symbols vr g d)) =
   map (fun m => (m_ext m, m_code m, m_size m, m_def m)) (t_isvs (symbols repaired g d)) /\
@@ -73,3 +70,76 @@ Theorem C45_repairs_change_only_bounds : forall vr g d,
   t_hyps (symbols vr g d) = t_hyps (symbols repaired g d) /\ t_output (symbols vr g d) = t_output (symbols repaired g d).
 Proof. exact repair_changes_only_bounds. Qed.
 Print Assumptions C45_repairs_change_only_bounds.
+
+(* per-element bounds: `@Bounds x in` holds for every element, `@Bounds x[i] in` for element i only; the function is the only solution *)
+Theorem C45_per_element_bounds_rule : forall v i, bounds_wf v -> elem_bounds_spec v i (elem_bounds v i).
+Proof. exact elem_bounds_ok. Qed.
+Print Assumptions C45_per_element_bounds_rule.
+Theorem C45_per_element_bounds_rule_unique : forall v i a b, bounds_wf v -> elem_bounds_spec v i a -> elem_bounds_spec v i b -> a = b.
+Proof. exact elem_bounds_spec_det. Qed.
+Print Assumptions C45_per_element_bounds_rule_unique.
+
+(* hypothesis-specialised declarations: under hypothesis h a container holds the variables declared for every hypothesis or for h, in
+   declaration order, and nothing else *)
+Theorem C45_hypothesis_view_keeps_exactly_the_variables_declared_for_it : forall h d, let r := restrict h d in
+  dkind r = dkind d /\ dunit r = dunit d /\ dhyps r = dhyps d /\ ddsl r = ddsl d /\
+  (sublist (dmps r) (dmps d) /\ forall v, In v (dmps r) <-> In v (dmps d) /\ declared_for_spec h v) /\
+  (sublist (dsvs r) (dsvs d) /\ forall v, In v (dsvs r) <-> In v (dsvs d) /\ declared_for_spec h v) /\
+  (sublist (dasvs r) (dasvs d) /\ forall v, In v (dasvs r) <-> In v (dasvs d) /\ declared_for_spec h v) /\
+  (sublist (desvs r) (desvs d) /\ forall v, In v (desvs r) <-> In v (desvs d) /\ declared_for_spec h v) /\
+  (sublist (dparams r) (dparams d) /\ forall v, In v (dparams r) <-> In v (dparams d) /\ declared_for_spec h v).
+Proof. exact restrict_ok. Qed.
+Print Assumptions C45_hypothesis_view_keeps_exactly_the_variables_declared_for_it.
+
+(* the Implicit DSL and the StandardElasticity brick add parameters / material properties / the elastic strain; they never drop or
+   reorder what the user declared *)
+Theorem C45_dsl_and_brick_keep_user_declarations : forall s l, sublist l (dsl_params s l) /\ sublist l (dsl_mps s l) /\ sublist l (dsl_svs s l).
+Proof. exact dsl_keeps. Qed.
+Print Assumptions C45_dsl_and_brick_keep_user_declarations.
+
+(* setParameter on a freshly loaded library = the library generated from the source in which that default value was edited *)
+Theorem C45_setParameter_is_recompiling_with_that_default : forall mp params h k key x st',
+  set_param (store_of mp params) h k key x = Some st' ->
+  exists params', set_default mp params h k key x = Some params' /\ st' = store_of mp params' /\
+                  forall h', view st' h' = view (store_of mp params') h'.
+Proof. exact set_recompile. Qed.
+Print Assumptions C45_setParameter_is_recompiling_with_that_default.
+Theorem C45_setParameter_commutes_with_editing_the_default : forall mp params h k key x,
+  set_param (store_of mp params) h k key x = option_map (store_of mp) (set_default mp params h k key x).
+Proof. exact set_param_store_of. Qed.
+Print Assumptions C45_setParameter_commutes_with_editing_the_default.
+Theorem C45_parameters_file_is_recompiling_with_those_defaults : forall mp params h lines st',
+  load_file (store_of mp params) h lines = Some st' ->
+  exists params', edit_defaults mp params h lines = Some params' /\ st' = store_of mp params' /\
+                  forall h', view st' h' = view (store_of mp params') h'.
+Proof. exact file_recompile. Qed.
+Print Assumptions C45_parameters_file_is_recompiling_with_those_defaults.
+Theorem C45_setParameter_fails_exactly_on_unknown_names : forall st h k key x,
+  set_param st h k key x = None <-> forall s, In s st -> slot_matches h k key s = false.
+Proof. exact set_param_none. Qed.
+Print Assumptions C45_setParameter_fails_exactly_on_unknown_names.
+Theorem C45_setParameter_changes_exactly_one_value : forall st h k key x st',
+  set_param st h k key x = Some st' ->
+  exists l1 s l2, st = l1 ++ s :: l2 /\ (forall s0, In s0 l1 -> slot_matches h k key s0 = false) /\ slot_matches h k key s = true /\
+                  st' = l1 ++ mkSlot (s_owner s) (s_name s) (s_alias s) (s_kind s) (set_nth (key_index key) x (s_vals s)) :: l2.
+Proof. exact set_param_some. Qed.
+Print Assumptions C45_setParameter_changes_exactly_one_value.
+Theorem C45_editing_a_default_value_changes_nothing_else : forall v i x,
+  let w := with_default v i x in
+  vname w = vname v /\ vgloss w = vgloss v /\ ventry w = ventry v /\ vty w = vty v /\ vsize w = vsize v /\ vbounds w = vbounds v /\
+  vphys w = vphys v /\ vebounds w = vebounds v /\ vhyps w = vhyps v /\
+  (i < vsize v -> nth i (vdefault w) zero = x /\ forall j, j <> i -> nth j (vdefault w) zero = nth j (pad v) zero).
+Proof. exact with_default_same_declaration. Qed.
+Print Assumptions C45_editing_a_default_value_changes_nothing_else.
+
+(* accepted declarations: exported bounds lie within the exported physical bounds (declared or inherited) and have every side they have *)
+Theorem C45_accepted_bounds_lie_within_physical_bounds : forall vr g d v i b p, accepts vr g d = true -> In v (all_vars d) ->
+  elem_bounds v i = Some b -> complete g (dunit d) v = Some p -> within b p.
+Proof. exact accepts_within. Qed.
+Print Assumptions C45_accepted_bounds_lie_within_physical_bounds.
+
+(* accepted behaviours: under every declared hypothesis no external name is exported twice (so a setParameter key names one parameter) *)
+Theorem C45_accepted_behaviour_names_unique_per_hypothesis : forall vr g d, dkind d = Behaviour -> accepts vr g d = true -> forall h, In h (dhyps d) ->
+  NoDup (map ext_name (all_vars (restrict h d))) /\ NoDup (map ext_name (params_of (restrict h d))).
+Proof. exact accepts_names_behaviour. Qed.
+Print Assumptions C45_accepted_behaviour_names_unique_per_hypothesis.
